@@ -25,8 +25,8 @@ type c6Gen struct {
 	DeferOnly bool `json:"deferonly,omitempty"`
 	// NewDefer (mode new): New(c) registers a Defer callback of its own
 	NewDefer bool `json:"newdefer,omitempty"`
-	Nested    bool `json:"nested,omitempty"` // the first callback registers further callbacks from inside
-	Peek      bool `json:"peek,omitempty"`   // asks Context.Doc about the types of imported packages before rendering
+	Nested   bool `json:"nested,omitempty"` // the first callback registers further callbacks from inside
+	Peek     bool `json:"peek,omitempty"`   // asks Context.Doc about the types of imported packages before rendering
 	// Returns: what GenerateType returns: "" (nil for every type) | skip-some | ignore-some | wrapignore-some (for every second type by name);
 	// whatever it returns, every enabled type must still be handed over exactly once
 	Returns string `json:"returns,omitempty"`
